@@ -326,10 +326,19 @@ func f32Text(f float32) string {
 	return s
 }
 
+// LitHook, when set, may replace the spelling of a literal leaf (used to
+// print the run-time twin of a constant expression, whose leaves are loads).
+var LitHook func(*Lit) (string, bool)
+
 // ExprString renders an expression (fully parenthesised).
 func ExprString(e Expr) string {
 	switch x := e.(type) {
 	case *Lit:
+		if LitHook != nil {
+			if s, ok := LitHook(x); ok {
+				return s
+			}
+		}
 		s := LitString(x)
 		// negative float literals need parentheses when nested
 		if (x.T.S == F32 || x.T.S == F16) && strings.HasPrefix(s, "-") {
